@@ -17,8 +17,7 @@ This private submodule is *not* intended for importation by downstream callers.
 from ast import PyCF_ONLY_AST
 from beartype.claw._ast.clawastmain import BeartypeNodeTransformer
 from beartype.claw._importlib.clawimpcache import (  # type: ignore[attr-defined]
-    make_cache_from_source_beartype,
-    cache_from_source_original,
+    cache_from_source_beartyped,
 )
 from beartype.roar import BeartypeClawImportAstException
 from beartype._conf.confmain import BeartypeConf
@@ -439,7 +438,8 @@ class BeartypeSourceFileLoader(SourceFileLoader):
         # exhausting the stack during import handling. In other words, there is
         # likely to *NO* valid alternative to the current approach. *shrug*
         if BLACKLIST_CLAW_PACKAGE_NAMES_REGEX.match(fullname) is not None:
-            return super().get_code(fullname)
+            with cache_from_source_beartyped(None):
+                return super().get_code(fullname)
         # Else, that module does *NOT* reside in a problematic package.
 
         # ..................{ IMPORTS                        }..................
@@ -465,7 +465,8 @@ class BeartypeSourceFileLoader(SourceFileLoader):
         # bytecode filenames.
         if conf is None:
             # print(f'Importing module "{fullname}" without beartyping...')
-            return super().get_code(fullname)
+            with cache_from_source_beartyped(None):
+                return super().get_code(fullname)
         # Else, that module has been hooked. In this case...
         #
         # Note that the logic below requires inefficient exception handling (as
@@ -482,36 +483,27 @@ class BeartypeSourceFileLoader(SourceFileLoader):
         # Expose this configuration to the "beartype.claw._ast" subpackage.
         claw_state.module_name_to_beartype_conf[fullname] = conf
 
-        # Temporarily monkey-patch away the cache_from_source() function with a
-        # beartype-specific replacement transforming that module with
-        # beartype-specific type-checking.
+        # Declare the current thread to be importing a hooked module, which
+        # monkey-patches away the cache_from_source() function with a
+        # beartype-specific thread-safe dispatcher caching that module under a
+        # beartype-specific marker.
         #
         # Note that @agronholm (Alex Grönholm) claims that "the import lock
-        # should make this monkey patch safe." We're trusting you here, man!
+        # should make this monkey patch safe." Sadly, the import lock is
+        # per-module rather than global: concurrently importing a hooked and an
+        # unhooked module from two threads used to cache the latter under the
+        # beartype-specific marker (or the former under the unmarked filename).
+        # This declaration is thus thread-local.
         #
         # Note that this beartype-specific variant is specific to the beartype
         # configuration under which this module is compiled, as several options
         # of that configuration change the AST transformation applied below and
         # thus the bytecode cached for this module.
-        _bootstrap_external.cache_from_source = (
-            make_cache_from_source_beartype(conf))
-
-        # Attempt to defer to the superclass method.
-        try:
-            # print(f'Importing module "{fullname}" with beartyping...')
+        with cache_from_source_beartyped(conf):
+            # Defer to the superclass implementation of this method, which
+            # internally calls the source_to_code() method overridden below.
             return super().get_code(fullname)
-        # After doing so (and regardless of whether doing so raises an
-        # exception), restore the original cache_from_source() function.
-        finally:
-            _bootstrap_external.cache_from_source = (
-                cache_from_source_original)
 
-
-    # Note that we explicitly ignore mypy override complaints here. For unknown
-    # reasons, mypy believes that "importlib.machinery.SourceFileLoader"
-    # subclasses comply with the "importlib.abc.InspectLoader" abstract base
-    # class (ABC). Naturally, that is *NOT* the case. Ergo, we entirely ignore
-    # mypy complaints here with respect to signature matching.
     def source_to_code(  # type: ignore[override]
         self,
 
